@@ -167,7 +167,10 @@ where
         if old.is_empty() {
             let mut new = self.build().states;
             for item in new.iter_mut() {
-                Rndr::mount_before(item, marker.as_ref());
+                // a list that is not mounted at the moment (e.g. the hidden side of an
+                // `EitherKeepAlive`) keeps its new items unmounted: `mount()` mounts them
+                // together with the rest of the list
+                Rndr::try_mount_before(item, marker.as_ref());
             }
             *old = new;
         } else if self.is_empty() {
@@ -186,7 +189,10 @@ where
                     }
                     itertools::EitherOrBoth::Left(new) => {
                         let mut new_state = new.build();
-                        Rndr::mount_before(&mut new_state, marker.as_ref());
+                        Rndr::try_mount_before(
+                            &mut new_state,
+                            marker.as_ref(),
+                        );
                         adds.push(new_state);
                     }
                     itertools::EitherOrBoth::Right(old) => {
